@@ -1,5 +1,6 @@
 """C06 - serialize-then-parse is the identity on statham's normal form."""
 import copy
+import sys
 import json
 
 from hypothesis import strategies as st
@@ -219,6 +220,16 @@ def cases(draw):
     return case
 
 
+ATHERIS_RUNS = 8000  # per campaign; shards 0-1 of the thorough tier run one each
+
+
+def atheris_strategy():
+    return cases()
+
+
 def run_shard(ctx, stats):
     strat = cases()
-    return runner.hyp_run(ctx, stats, strat, predicate, BUDGET[ctx.tier])
+    failure = runner.hyp_run(ctx, stats, strat, predicate, BUDGET[ctx.tier])
+    if failure or ctx.quick or ctx.shard >= 2:
+        return failure
+    return runner.atheris_campaign(ctx, stats, sys.modules[__name__], ATHERIS_RUNS)
